@@ -29,7 +29,11 @@ type FullCfg struct {
 	NoF    bool        `json:"no_f,omitempty"`         // OptimizeTransitions = false (hmm kinds) / OptimizeWeights = false (mixture kinds)
 }
 
-var fullKinds = []string{"hmm", "mixture", "hmm-poisson", "mixture-poisson", "vmixture", "mhmm", "mmixture", "shapehmm"}
+var fullKinds = []string{"hmm", "mixture", "hmm-poisson", "mixture-poisson", "vmixture", "mhmm", "mmixture", "shapehmm",
+	// round 3: composite models (emissions / components with scratch state of their own), see composite.go
+	// ("mhmm-vmix", an HMM over vector mixtures, is implemented there but NOT driven: vectorDistribution.Mixture.SetParameters
+	// calls itself unconditionally - fatal stack overflow in every run, sequential or not: F-VMIX-SETPARAMS-RECURSION)
+	"hmm-smix", "mix-smix", "hmm-logt", "hmm-transl"}
 
 func isHmmKind(k string) bool { return strings.Contains(k, "hmm") }
 
@@ -43,6 +47,10 @@ func genFull(r *Rng) *FullCfg {
 	c.NoF = r.Intn(3) == 0
 	if isHmmKind(c.Kind) && noTransUnsafe {
 		c.NoF = false
+	}
+	if isCompositeFull(c.Kind) {
+		genCompositeFull(r, c)
+		return c
 	}
 	ns := []int{1, 2, 3, 5, 9}[r.Intn(5)]
 	poisson := strings.HasSuffix(c.Kind, "-poisson")
@@ -215,7 +223,7 @@ func runFull(cfg *FullCfg, pc PoolCfg) (par []float64, errd bool, panicked strin
 		inPool(pool, pc.Nested, func(q tp.ThreadPool) { aerr = est.EstimateOnData(xs, nil, q) })
 		p = est.GetParameters()
 	default:
-		panic("unknown kind " + cfg.Kind)
+		p, aerr = runCompositeFull(cfg, pc, pool)
 	}
 	errd = aerr != nil
 	if p != nil {
